@@ -300,12 +300,20 @@ def per_document_blocks(obs):
 
 
 def per_document_region(obs):
+    """the PerDocument arm that opens a new account (several arms may test the policy: the one that resets is meant)"""
+    cands = []
     for b, sym, tt, ff in bool_switches(obs):
         if sym[0] == "call" and "PartialEq" in sym[1] and "EnforcingPolicy" in sym[1]:
             args = [render(a) for a in sym[2]]
             if "self.policy" in args and any("PerDocument" in a for a in args) and tt != ff:
-                return {x for x in obs.live_blocks if obs.dominates(tt, x)}
-    return None
+                edge = tt if last_seg(sym[1]) == "eq" else ff
+                cands.append({x for x in obs.live_blocks if obs.dominates(edge, x)})
+    for reg in cands:
+        for x in reg:
+            t = obs.blocks[x]["term"]
+            if t["k"] == "call" and "reset" in last_seg(str(t["f"].get("res") or t["f"].get("path", ""))):
+                return reg
+    return cands[0] if cands else None
 
 
 def accumulating_fields(fx):
@@ -316,11 +324,11 @@ def accumulating_fields(fx):
     return {p: w for p, w in allw.items() if p.startswith("self.") and p not in RESET_EXEMPT}, allw
 
 
-def rule_reset(ctx, fx, config):
+def rule_reset(ctx, fx, config, prop="C07"):
     obs = fx.fn("budget::BudgetEnforcer::observe")
     ctx.saw(obs)
     region = per_document_region(obs)
-    if not ctx.check(region is not None, "RESET", "C07:RESET:observe:per-document-arm", "per-document arm found (policy == PerDocument)",
+    if not ctx.check(region is not None, "RESET", "%s:RESET:observe:per-document-arm" % prop, "per-document arm found (policy == PerDocument)",
                      "cannot find the `policy == PerDocument` arm of observe(): per-document enforcement is gone or restructured", config, ctx.where(obs)):
         return
     acc, allw = accumulating_fields(fx)
@@ -331,7 +339,7 @@ def rule_reset(ctx, fx, config):
     n = 0
     for p in sorted(x for x in allw if x.startswith("self.") and x != "self"):
         n += 1
-        key = "C07:RESET:observe:%s" % p
+        key = "%s:RESET:observe:%s" % (prop, p)
         if p in RESET_EXEMPT:
             ctx.ok("RESET", key, "exempt: %s" % RESET_EXEMPT[p], config, ctx.where(obs))
             continue
